@@ -315,7 +315,20 @@ static bool a64_small_budget(const lit &L)
 // Yields the end offset and the correctly rounded value; a string without a mantissa digit converts nothing
 // (end 0, value 0: C11 7.22.1.3p4/p7).
 struct gref { long end; ld val; };
+// per-string cache (exhaustive batches call nine entry points on one string: two glibc conversions instead of 27)
+struct refcache { const uint8_t *s = 0; bool haveg[2] = {false, false}, haver[2] = {false, false}, rok[2] = {false, false}; gref g[2]; ld r[2]; };
+static refcache *g_cache = 0;
+static gref glibc_decimal_raw(const uint8_t *s, bool single);
 static gref glibc_decimal(const uint8_t *s, bool single)
+{
+    if (g_cache && g_cache->s == s)
+    {
+        if (!g_cache->haveg[single]) g_cache->g[single] = glibc_decimal_raw(s, single), g_cache->haveg[single] = true;
+        return g_cache->g[single];
+    }
+    return glibc_decimal_raw(s, single);
+}
+static gref glibc_decimal_raw(const uint8_t *s, bool single)
 {
     gref g{0, 0};
     if (isspace(s[0])) return g;
@@ -343,7 +356,17 @@ static void check_atof(out &o, const lit &L, bool single, ld v, bool vnan, long 
     }
     ld ref;
     if (nodigits) ref = 0;
-    else if (!ref_value(L, single, &ref)) { o.fail("oracle: glibc did not accept the re-assembled literal"); return; }
+    else if (g_cache && g_cache->s == str && g_cache->haver[single])
+    {
+        if (!g_cache->rok[single]) { o.fail("oracle: glibc did not accept the re-assembled literal"); return; }
+        ref = g_cache->r[single];
+    }
+    else
+    {
+        bool okr = ref_value(L, single, &ref);
+        if (g_cache && g_cache->s == str) g_cache->haver[single] = true, g_cache->rok[single] = okr, g_cache->r[single] = ref;
+        if (!okr) { o.fail("oracle: glibc did not accept the re-assembled literal"); return; }
+    }
     if (str && !nodigits && !(g.val == ref)) { o.fail("oracle: glibc value of the string differs from glibc value of the re-assembled literal"); return; }
     char why[160];
     if (!atof_within(L, single, strict, v, vnan, ref, why, sizeof why)) o.fail(why);
@@ -484,10 +507,12 @@ static bool atof_within(const lit &L, bool single, bool strict, ld v, bool vnan,
     if ((v < 0) != (ref < 0) && ref != 0) { if (why) snprintf(why, nwhy, "sign"); return false; }
     return true;
 }
-static std::string cls_of(bool nan, bool inf, bool neg, bool zero)
+// class codes: 0 edge, 1 nan, 2 +i, 3 -i, 4 +z, 5 -z, 6 +f, 7 -f
+static const char *const CLSNAME[8] = {"edge", "nan", "+i", "-i", "+z", "-z", "+f", "-f"};
+static int cls_of(bool nan, bool inf, bool neg, bool zero)
 {
-    if (nan) return "nan";
-    return std::string(neg ? "-" : "+") + (inf ? "i" : zero ? "z" : "f");
+    if (nan) return 1;
+    return (inf ? 2 : zero ? 4 : 6) + (neg ? 1 : 0);
 }
 
 // frozen twins: the arithmetic of igris_atof64 / igris_atof32 / igris_f32toa as the Lean model transcribes it
@@ -574,38 +599,45 @@ static std::string twin_f32toa(float f, int8_t precision)
     return t;
 }
 
-// the compared result of a parser op (see above) and, in `verdict`, whether the value is within the allowance
-static std::string canon_parse(const uint8_t *s, const pres &r, const lit &L, bool strict, bool *verdict = 0)
+// the compared result of a parser op (see above) as a record, and as the text of a result line
+struct prec_t { uint64_t refbits; int refbytes; int cls; bool ok; };
+static prec_t canon_parse_rec(const uint8_t *s, const pres &r, const lit &L, bool strict)
 {
+    prec_t c;
     gref g = glibc_decimal(s, r.single);
     bool hasdig = !(L.ip.empty() && L.fp.empty());
     ld ref = hasdig ? g.val : 0.0L;
-    std::string refhex;
     bool edge;
+    bool sig = sigdigits(L) > 0;
     if (r.single)
     {
         float rf = (float)ref;
         uint32_t mag = bits(rf) & 0x7fffffffu;
-        edge = sigdigits(L) > 0 && (mag <= 8 || mag >= 0x7f000000u);
-        refhex = r.is32 ? hexn(bits(rf), 8) : hexn(bits((double)rf), 16);
+        edge = sig && (mag <= 8 || mag >= 0x7f000000u);
+        c.refbytes = r.is32 ? 4 : 8;
+        c.refbits = r.is32 ? (uint64_t)bits(rf) : bits((double)rf);
     }
     else
     {
         double rd = (double)ref;
         uint64_t mag = bits(rd) & 0x7fffffffffffffffull;
-        edge = sigdigits(L) > 0 && (mag <= 8 || mag >= 0x7fe0000000000000ull);
-        refhex = hexn(bits(rd), 16);
+        edge = sig && (mag <= 8 || mag >= 0x7fe0000000000000ull);
+        c.refbytes = 8, c.refbits = bits(rd);
     }
-    std::string cls = edge ? "edge"
-                     : r.is32 ? cls_of(std::isnan(r.vf), std::isinf(r.vf), std::signbit(r.vf), r.vf == 0)
-                              : cls_of(std::isnan(r.vd), std::isinf(r.vd), std::signbit(r.vd), r.vd == 0);
+    c.cls = edge ? 0
+            : r.is32 ? cls_of(std::isnan(r.vf), std::isinf(r.vf), std::signbit(r.vf), r.vf == 0)
+                     : cls_of(std::isnan(r.vd), std::isinf(r.vd), std::signbit(r.vd), r.vd == 0);
     ld v = r.is32 ? (ld)r.vf : (ld)r.vd;
     bool vnan = r.is32 ? std::isnan(r.vf) : std::isnan(r.vd);
-    bool ok = atof_within(L, r.single, strict, v, vnan, ref, 0, 0);
-    if (verdict) *verdict = ok;
-    std::string line = refhex + " " + cls;
+    c.ok = atof_within(L, r.single, strict, v, vnan, ref, 0, 0);
+    return c;
+}
+static std::string canon_parse(const uint8_t *s, const pres &r, const lit &L, bool strict)
+{
+    prec_t c = canon_parse_rec(s, r, L, strict);
+    std::string line = hexn(c.refbits, c.refbytes * 2) + " " + CLSNAME[c.cls];
     if (r.has_end) line += r.unset ? std::string(" e-unset") : " e" + std::to_string(r.end);
-    return line + (ok ? " within" : " outside");
+    return line + (c.ok ? " within" : " outside");
 }
 // statistics: is the real code bit-identical to the frozen twin of the model's arithmetic?
 static bool same_as_twin(int k, const char *s, const pres &r)
@@ -849,7 +881,7 @@ static void run_op(const std::vector<std::string> &w, const std::string &, out &
     if ((op == "gx" || op == "gxo") && w.size() >= 4)
     {
         // gx LEN START COUNT: the strings number START .. START+COUNT-1 of length LEN over the alphabet GXA,
-        // through EVERY entry point; result = FNV-1a over the canonical lines (canon_parse) of the nine entry points
+        // through EVERY entry point; result = FNV-1a over the canonical records (canon_parse_rec: reference bits, class, end offset, verdict) of the nine entry points
         int len = atoi(w[1].c_str());
         uint64_t c0 = strtoull(w[2].c_str(), 0, 10), cnt = strtoull(w[3].c_str(), 0, 10);
         uint64_t h = 0xcbf29ce484222325ull, twin_diff = 0;
@@ -858,11 +890,22 @@ static void run_op(const std::vector<std::string> &w, const std::string &, out &
             bytes m = gx_string(len, c);
             exact_buf s(m);
             lit L = match_literal(s.p);
+            refcache cache;
+            cache.s = s.p, g_cache = &cache;
             for (int k = 0; k < E_HASHED; k++)
             {
                 pres r = call_entry(k, (const char *)s.p);
-                std::string line = canon_parse(s.p, r, L, false);
-                h = fnv(h, line.data(), line.size());
+                if (op == "gx")
+                {
+                    prec_t c = canon_parse_rec(s.p, r, L, false);
+                    uint8_t rec[12];
+                    memcpy(rec, &c.refbits, 8); // little-endian
+                    size_t n = (size_t)c.refbytes;
+                    rec[n++] = (uint8_t)c.cls;
+                    rec[n++] = r.has_end ? (r.unset ? 0xfe : (uint8_t)r.end) : 0xff;
+                    rec[n++] = c.ok ? 1 : 0;
+                    h = fnv(h, rec, n);
+                }
                 if (!same_as_twin(k, (const char *)s.p, r)) twin_diff++;
                 if (o.oracle == "ok")
                 {
@@ -871,6 +914,7 @@ static void run_op(const std::vector<std::string> &w, const std::string &, out &
                     if (t.oracle != "ok") o.fail(std::string(ENAME[k]) + " " + hex(m) + ": " + t.oracle.substr(5));
                 }
             }
+            g_cache = 0;
         }
         o.result = op == "gx" ? hexn(h, 16) + " " + std::to_string(cnt) : "judged " + std::to_string(cnt);
         o.tag(op == "gx" ? "exhaustive-small-strings" : "exhaustive-small-strings-oracle-only");
